@@ -265,6 +265,25 @@ def resolution_census(res, build, rng, witness, idx):
                               ("async", Interpreter, "_resolve_target_state_node")):
         m = build()
         ts = _all_transitions(m)
+        # probes: every local state name, written as a plain key on every state (what each denotes
+        # depends on WHERE it is written - own descendants first, then outwards)
+        from xstate_statemachine.models import TransitionDefinition
+        nodes, stack = [], [m]
+        while stack:
+            n_ = stack.pop()
+            nodes.append(n_)
+            stack.extend(n_.states.values())
+        keys = sorted({n_.key for n_ in nodes if n_.parent is not None})
+        for n_ in nodes:
+            if n_.parent is None or n_.type == "history":
+                continue
+            for k_ in keys:
+                for sp_ in (k_, "." + k_):
+                    try:
+                        ts.append(TransitionDefinition(event="PROBE", config={"target": sp_}, source=n_))
+                        res.count("census.probe-transitions")
+                    except Exception:  # noqa: BLE001
+                        pass
         want = {id(t): fingerprint.resolve_id(m, t.source, t.target_str) for t in ts}
         spelt = {id(t): t.target_str for t in ts}
         it = cls(m)
